@@ -220,3 +220,47 @@ def fields_mentioned(t):
         if s[0] == "field" and s[1][0] == "param" and s[1][1] == 1:
             out.add(s[2])
     return out
+
+
+def double_hashing_rules(ctx, rule="R08-double-hashing"):
+    """The documented scheme h_i(x) = (h1(x) + i*h2(x) + f(i)) mod m with h1, h2 in [0,m), f: [0,k) -> [0,m):
+    iter_for reduces BOTH base hashes (distinct IVs 0 and 1) modulo m, next() combines them modulo m, setup_f reduces modulo m.
+    A base hash reduced by another modulus (k, a constant) collapses the rows/probes onto few distinct patterns."""
+    from ..terms import TermBuilder, fmt, mk, const, elem_of
+    prog = ctx.prog
+    selfp = ("param", 1, "self")
+    itf = ctx.anchor("hash_utils::HashIterBuilder::iter_for")
+    nxt = ctx.anchor("<hash_utils::HashIter as std::iter::Iterator>::next")
+    sf = ctx.anchor("hash_utils::HashIterBuilder::setup_f")
+    if itf is not None:
+        r = TermBuilder(itf, prog).return_term()
+        d = dict(r[3]) if r[0] == "adt" else {}
+        m = ("field", selfp, "m")
+        obj = ("param", 2, itf.local_name(2))
+        want1 = mk("Rem", ("call", "hash_utils::HashIterBuilder::h_i", (selfp, obj, const(0))), m)
+        want2 = mk("Rem", ("call", "hash_utils::HashIterBuilder::h_i", (selfp, obj, const(1))), m)
+        ctx.check(d.get("h1") == want1 and d.get("h2") == want2, rule, itf.key, itf, "h1 = h_0(x) mod m, h2 = h_1(x) mod m",
+                  "iter_for builds h1 = %s, h2 = %s; the documented scheme needs both base hashes (IV 0 and IV 1) reduced modulo m" % (fmt(d.get("h1")) if d.get("h1") else "?", fmt(d.get("h2")) if d.get("h2") else "?"))
+    if nxt is not None:
+        r = TermBuilder(nxt, prog).return_term()
+        alts = r[1] if r[0] == "phi" else (r,)
+        some = [a for a in alts if a[0] == "adt" and a[2] == "Some"]
+        bm = ("field", ("field", selfp, "builder"), "m")
+        i_f = ("field", selfp, "i")
+        want = mk("Rem", mk("Add", ("field", selfp, "h1"), mk("Mul", mk("Rem", i_f, bm), ("field", selfp, "h2")),
+                           ("index", ("field", ("field", selfp, "builder"), "f"), i_f)), bm)
+        got = some[0][3][0][1] if len(some) == 1 else None
+        # f(i) may appear as a call to the getter or inlined as an index
+        alt_want = mk("Rem", mk("Add", ("field", selfp, "h1"), mk("Mul", mk("Rem", i_f, bm), ("field", selfp, "h2")),
+                               ("call", "hash_utils::HashIterBuilder::f", (("field", selfp, "builder"), i_f))), bm)
+        ctx.check(got in (want, alt_want), rule, nxt.key, nxt, "item i = (h1 + (i mod m)*h2 + f(i)) mod m",
+                  "next() yields %s, documented: (h1 + i*h2 + f(i)) mod m" % (fmt(got) if got else fmt(r)[:200]))
+    if sf is not None:
+        r = TermBuilder(sf, prog).return_term()
+        okf = False
+        if r[0] == "call" and r[1].endswith("collect") and r[2][0][0] == "map":
+            rng = r[2][0][1]
+            e = elem_of(r[2][0])
+            okf = rng[0] == "adt" and rng[1] == "std::ops::Range" and dict(rng[3]).get("start") == const(0) and dict(rng[3]).get("end", ("x",))[:2] == ("param", 2) \
+                and e[0] == "op" and e[1] == "Rem" and e[2][1][:2] == ("param", 1)
+        ctx.check(okf, rule, sf.key, sf, "f has k entries, each reduced modulo m", "setup_f builds %s" % fmt(r)[:200])
